@@ -49,6 +49,9 @@ CLAIMED = {
  "C03": ("smx", SMX,
          "Every service URL of a grammar (2 schemes x 7 authorities incl. IPv6 literals, zone id and userinfo x 5 paths x 5 queries) x 3 key sets x 2 id assignments x 3 request contents is built twice through the real RequestBuilder + StandardCupv2Handler and the wire URI, retained body, key id and nonce compared with an independent string-level expectation; all nonces of the whole enumeration must be pairwise distinct; in continuous-mode histories (failed attempts, install with three reports, ping, reboot, restart, further check) every wire request and the metadata/bytes handed to the installer are checked.",
          "Nonce unpredictability is not observable (distinctness only); http::Uri decides which URLs are well-formed.", "3/C03"),
+ "C14": ("smx", SMX,
+         "On five base scripts run on the real state machine with overflow checks on: every single failing storage write, every pair, all-of-a-kind, all-on-a-key and everything (differential: events and wire requests equal the healthy run); every protocol key and the app JSON preset to each of 13 extreme / mistyped values (singles, and all pairs in thorough); a wall-clock jump from a 7-entry menu before any clock read (<=1/2 per run); every truncation and single-bit flip of 4 response documents, every status 100-599 x 6 header sets x CUP, and 62 service URL strings through the one-shot flow; each check must end with a delivered result and nothing may unwind.",
+         "Installer/policy answers are contract-conforming; log formatting is not exercised (no tracing subscriber); inputs outside the listed families are not reached.", "3/C14"),
 }
 
 PENDING_REASON = "check under construction in this round (design in DESIGN.md section 3); not claimed until its machinery is committed"
